@@ -14,7 +14,10 @@ package main
 // (`@x;` is not `@x{}`), declaration name, value, !important flag.
 
 import (
+	"encoding/json"
 	"fmt"
+	"os"
+	"path/filepath"
 	"sort"
 	"strings"
 	"unicode/utf8"
@@ -233,6 +236,7 @@ type cpHarness struct {
 	quota    int
 	seen     int
 	res      []cpOutcome
+	pinned   []cpOutcome
 	failures []cpOutcome
 	failSeen map[string]bool
 	nSrc     int
@@ -397,8 +401,47 @@ func cpSheet(r *vlib.Rng) string {
 	return sb.String()
 }
 
+type cpCorpusCase struct {
+	Src    string `json:"src"`
+	Parser string `json:"parser"`
+	SkipC  bool   `json:"skip_comments"`
+	SkipW  bool   `json:"skip_whitespace"`
+	Note   string `json:"note"`
+}
+
+// regression corpus of the compound stream: corpus/C20/*.ccase
+func (h *cpHarness) genCorpus() {
+	files, _ := filepath.Glob("../corpus/C20/*.ccase")
+	sort.Strings(files)
+	for _, f := range files {
+		b, err := os.ReadFile(f)
+		if err != nil {
+			continue
+		}
+		for _, line := range strings.Split(string(b), "\n") {
+			line = strings.TrimSpace(line)
+			if line == "" {
+				continue
+			}
+			var c cpCorpusCase
+			if json.Unmarshal([]byte(line), &c) != nil {
+				fmt.Fprintln(os.Stderr, "bad corpus line in", f)
+				os.Exit(2)
+			}
+			cfg := cpConfig{c.Parser, c.SkipC, c.SkipW}
+			h.consider(c.Src, cfg)
+			for _, o := range runCompounds(c.Src, cfg) { // always evaluated by the model
+				if o.ok {
+					h.pinned = append(h.pinned, o)
+				}
+			}
+		}
+	}
+}
+
 func (h *cpHarness) generate(n int) {
 	r := h.rng
+	h.genCorpus()
 	cfgs := []cpConfig{}
 	for _, p := range cpParsers {
 		for _, sc := range []bool{true, false} {
